@@ -1145,7 +1145,11 @@ func (s *Store) streamBackupDB(ctx context.Context, name string, remotePos ltx.P
 	slog.Debug("sync database to backup", slog.String("name", name))
 
 	db := s.DB(name)
-	if db == nil {
+	if db == nil && remotePos.IsZero() {
+		// The backup knows the name but holds nothing for it (e.g. an upload
+		// that failed before anything was stored): there is nothing to restore.
+		return ltx.Pos{}, nil
+	} else if db == nil {
 		// TODO: Handle database deletion
 		slog.Warn("restoring from backup", slog.String("name", name), slog.String("reason", "no-local"))
 		return ltx.Pos{}, ltx.NewPosMismatchError(remotePos)
